@@ -153,12 +153,15 @@ func (res *CheckResult) check() {
 			res.checkVarType(*varDecl.Type)
 		}
 
-		if varDecl.Name != nil {
-			res.checkDuplicateVars(*varDecl.Name, varDecl)
-		}
-
+		// the origin is checked before the variable is declared:
+		// its arguments are evaluated before the variable exists
+		// (e.g. "account $a = meta($a, ..)" is an unbound variable error at runtime)
 		if varDecl.Origin != nil {
 			res.checkVarOrigin(*varDecl.Origin, varDecl)
+		}
+
+		if varDecl.Name != nil {
+			res.checkDuplicateVars(*varDecl.Name, varDecl)
 		}
 	}
 	for _, statement := range res.Program.Statements {
